@@ -302,6 +302,7 @@ class RunLab(object):
                 return_early = False
             if return_early:
                 st.elem_status, st.step_status, st.step_names, st.elem_kind, st.order = {}, {}, {}, {}, []
+                st.step_types = {}
                 return st
             config.reporters = list(reporters(config)) if reporters else []
             st.config = config
@@ -355,6 +356,7 @@ class RunLab(object):
         st.elem_status = {}
         st.step_status = {}
         st.step_names = {}
+        st.step_types = {}
         st.elem_kind = {}
         st.order = []
 
@@ -377,6 +379,7 @@ class RunLab(object):
             steps = list(s.all_steps)
             st.step_status[s.name] = [sname(x) for x in steps]
             st.step_names[s.name] = [x.name for x in steps]
+            st.step_types[s.name] = [x.step_type for x in steps]
             st.order.append(s.name)
 
         def walk(c):
